@@ -6,7 +6,7 @@
               each, k2 = Key() read again after Value() (pair kind)]
      t.fe     ForEach runs: [k = index of the failing callback call, visited, err = "same" | "nil" | "other"]
      t.srcok  the source slices still hold what they held before
-     t.cc / t.post   calls during construction / <<Value()>> of the exhausted iterator (<<"panic">> when it panics)
+     t.cc / t.post   calls during construction / Value() of the exhausted iterator: [panic, v]
    TRACE-P  in the first state of a trace the P layer of Iter (list semantics of the logged expression) judges the
             observation; every failing predicate is printed ({"t":"PVIOL",...}).
    TRACE-I  the cursor state of the model is advanced step by step; the first observed step that differs from the
@@ -38,7 +38,7 @@ Step == /\ drift = "no" /\ i < Len(Obs)
            IN /\ st' = n[2]
               /\ drift' = IF ~same THEN "step"
                           ELSE IF last /\ n[1] THEN "length"          \* the model would go on
-                          ELSE IF last /\ PostOf(n[2]) # T.post THEN "post"
+                          ELSE IF last /\ ~SamePost(PostOf(n[2]), T.post) THEN "post"
                           ELSE IF ~last /\ ~n[1] THEN "length"
                           ELSE "no"
         /\ i' = i + 1 /\ UNCHANGED ti
